@@ -1619,7 +1619,6 @@ func (m *Machine) narrowCheckConcrete(tDst, tSrc types.Type, x value) {
 	}
 }
 
-
 // narrowArith flags wrapping 8/16-bit arithmetic inside the target package
 // (narrow monitor, C09).
 func (m *Machine) narrowArith(op token.Token, x, y value) {
